@@ -10,7 +10,7 @@ def _c15_world(kind, harness, nd, r, hosts=None, tier="quick", insts=None):
 
 PROPS["C15"] = {
     "bounds": ("ring position: keys of 0..4 symbolic bytes, arbitrary digest; replica key text: host 1..2 (thorough 1..3) and instance 0..2 symbolic bytes out of [.0-9a-z], with and without port, 1..2 (thorough 1..3) replicas, "
-               "plus the production constructor (100 replicas) on two concrete destinations; lookup: every sorted ring of 1..6 entries (thorough 1..9) with free positions x every key position; "
+               "two destinations with free host (1..2 bytes) and instance (0..1 bytes) texts, distinct as pairs (also when equal once concatenated), 1 replica (thorough 2); plus the production constructor (100 replicas) on two concrete destinations; lookup: every sorted ring of 1..6 entries (thorough 1..9) with free positions x every key position; "
                "order independence: 2 destinations x 1..2 replicas and 3 destinations x 1 replica, distinct or shared host names (shared host with 2 replicas and 3 destinations with two or all three on one host: thorough), instance absent or one free byte, all ring positions free including ties, "
                "every non-identity listing order; minimal disruption: 1..2 destinations + 1 added with 1 replica, 1 + 1 with 2 replicas (thorough 2 + 1 with 2 replicas and no instances, 1 + 1 with 2 replicas on one host, 3 + 1 with 1), then removal of any one destination, free positions, every key position; "
                "address split: every address of 0..6 arbitrary bytes; route level: real ConsistentHashing route (100 replicas, real MD5) over 2 concrete loopback destinations, Add of a third, DelDestination of any index, three concrete metric names; UpdateDestination of any one of 3 destinations to a new address (with / without instance) while the endpoint accepts the reconnect"),
@@ -26,6 +26,8 @@ PROPS["C15"] = {
             spec("C15/ring-position", "VerifC15RingPosition"),
             spec("C15/replica-key-text", "VerifC15ReplicaKey"),
             spec("C15/replica-key-text/host<=3/replicas<=3", "VerifC15ReplicaKey", {"maxhost": "3", "maxreplicas": "3"}, tier="thorough"),
+            spec("C15/two-nodes", "VerifC15TwoNodes"),
+            spec("C15/two-nodes/replicas<=2", "VerifC15TwoNodes", {"maxreplicas": "2"}, tier="thorough"),
             spec("C15/replicas-100", "VerifC15Replicas100"),
             spec("C15/lookup/ring<=6", "VerifC15Lookup", {"maxring": "6"}),
             spec("C15/lookup/ring<=9", "VerifC15Lookup", {"maxring": "9"}, tier="thorough"),
